@@ -772,13 +772,41 @@ func (ig Integration) Filter() glf.Filter {
 	for i := range ig.Block {
 		fields = append(fields, ig.Block[i].Name)
 
-		if ig.Block[i].Name == "log_addr" && len(ig.Block[i].Filter.Arg) > 0 {
+		if ig.Block[i].Name == "log_addr" && ig.pushAddrs(ig.Block[i].Filter) {
 			for _, arg := range ig.Block[i].Filter.Arg {
 				addrs = append(addrs, eth.EncodeHex(eth.DecodeHex(arg)))
 			}
 		}
 	}
 	return *glf.New(fields, addrs, [][]string{{eth.EncodeHex(ig.sighash)}})
+}
+
+// Reports whether the arguments of a log_addr filter may be sent to the
+// source as the eth_getLogs address restriction: only when no log
+// that the integration's filters accept can have another address.
+func (ig Integration) pushAddrs(f Filter) bool {
+	if len(f.Arg) == 0 || len(f.Ref.Table) > 0 {
+		return false
+	}
+	if f.Op != "contains" && f.Op != "eq" {
+		return false
+	}
+	for _, arg := range f.Arg {
+		if len(eth.DecodeHex(arg)) != 20 {
+			return false
+		}
+	}
+	var active int
+	for _, def := range ig.coldefs {
+		fl := def.Input.Filter
+		if !def.BlockData.Empty() {
+			fl = def.BlockData.Filter
+		}
+		if len(fl.Arg) > 0 || len(fl.Ref.Integration) > 0 {
+			active++
+		}
+	}
+	return ig.filterAGG == "and" || active == 1
 }
 
 func (ig Integration) Delete(ctx context.Context, pg wpg.Conn, n uint64) error {
